@@ -463,7 +463,7 @@ class Machine:
 
     def named_const(self, txt, body):
         name = norm_callee(txt)
-        sc = self.prog.simple_const(txt, name)
+        sc = self.prog.simple_const(txt, name, body)
         if sc is not None:
             return self.const(sc, body)
         b = self.prog.const_body(txt, name, body)
@@ -582,6 +582,11 @@ class Machine:
         path = norm_callee(head)
         segs = [s for s in split_path(path) if s]
         fields = {i: v for i, v in enumerate(ops)}
+        if len(segs) >= 3 and segs[-2] == 'Out' and segs[-3] == '__tokio_select_util':
+            # tokio::select!'s output enum: _0.._{N-1}, Disabled; N = the BRANCHES const of this select
+            n = self.prog.simple_const('::'.join(segs[:-3]) + '::BRANCHES', '::'.join(segs[:-3]) + '::BRANCHES', body)
+            mm = re.match(r'^(\d+)_u32$', n or '')
+            return Adt('::'.join(segs[:-1]), segs[-1], fields, names, meta=('select_n', int(mm.group(1)) if mm else None))
         # decide struct vs enum variant using the registry, falling back on the destination type
         if len(segs) >= 2 and self.reg is not None:
             e = self.reg.enum_of_variant(segs[-2], segs[-1], '::'.join(segs[:-1]))
@@ -612,6 +617,8 @@ class Machine:
                 return v.variant
             if v.variant.startswith('variant#'):
                 return int(v.variant[8:])
+            if isinstance(v.meta, tuple) and v.meta and v.meta[0] == 'select_n' and v.meta[1] is not None:
+                return v.meta[1] if v.variant == 'Disabled' else int(v.variant[1:])
             idx = self.reg.variant_index(v.ty, v.variant)
             if idx is None:
                 raise Unsupported('discriminant: unknown enum %s::%s [%s]' % (v.ty, v.variant, self.where()))
